@@ -162,3 +162,176 @@ func VerifC34_maxFrameSizeSetting() {
 		vrt.Cover("C34/max-frame-size-setting-applied")
 	}
 }
+
+// ---------------------------------------------------------------------------------------------
+// VerifC34_conn: the same oracle, driven through the serve loop's own step functions on a hand-built
+// serverConn with two response streams, for a history of K events:
+//   handler output arriving (writeFrame of a DATA frame), WINDOW_UPDATE (stream / connection),
+//   SETTINGS_INITIAL_WINDOW_SIZE, SETTINGS_MAX_FRAME_SIZE, RST_STREAM from the client.
+// After every event the harness plays the write goroutine: it takes what startFrameWrite put on
+// writeFrameCh, checks it against the ghost client and reports back through wroteFrame.
+
+func settingsFrameC34(id SettingID, val uint32) *SettingsFrame {
+	p := []byte{byte(id >> 8), byte(id), byte(val >> 24), byte(val >> 16), byte(val >> 8), byte(val)}
+	return &SettingsFrame{FrameHeader: FrameHeader{valid: true, Type: FrameSettings, Length: 6}, p: p}
+}
+
+func VerifC34_conn() {
+	vrt.MapOrder(true)
+	sc, _ := newConnH2()
+	sc.sawFirstSettings = true
+	ns := vrt.Param("S", 2)
+	var g ghostC34
+	// the client's windows: what it granted so far (arbitrary, 31-bit)
+	sc.flow.n = vrt.I32("connWindow")
+	vrt.Assume(sc.flow.n >= 0)
+	g.connWin = int64(sc.flow.n)
+	sc.initialWindowSize = vrt.I32("initialWindowSize")
+	vrt.Assume(sc.initialWindowSize >= 0)
+	maxFrame := int64(sc.writeSched.maxFrameSize)
+	sts := make([]*stream, ns)
+	var ended, reset [maxStreamsC34]bool
+	for s := 0; s < ns; s++ {
+		st := &stream{id: uint32(2*s + 1), state: stateHalfClosedRemote}
+		attachStreamH2(sc, st)
+		st.flow.n = vrt.I32("streamWindow") // may be negative after an earlier SETTINGS change (6.9.2)
+		// Inv: window = current initial size + credits - sent, and what was sent fitted the window of its
+		// time, so window - initial >= -(2^31-1)
+		vrt.Assume(int64(st.flow.n)-int64(sc.initialWindowSize) >= -(1<<31 - 1))
+		g.win[s] = int64(st.flow.n)
+		sc.streams[st.id] = st
+		sc.curOpenStreams++
+		sts[s] = st
+	}
+	sc.maxStreamID = uint32(2*ns - 1)
+	dead := false
+
+	pump := func() {
+		for i := 0; i < 12; i++ {
+			select {
+			case wm := <-sc.writeFrameCh:
+				if wm.stream != nil {
+					s := streamIndexC34(sts, wm.stream)
+					vrt.Assert(s >= 0, "C34/only-produced-frames-are-sent")
+					vrt.Assert(!ended[s], "C34/nothing-sent-after-end-stream")
+					vrt.Assert(!reset[s], "C34/nothing-sent-after-reset")
+					g.observeC34(s, wm, uint32(maxFrame))
+					if endsStream(wm.write) {
+						ended[s] = true
+					}
+				}
+				sc.wroteFrame(frameWriteResult{wm: wm})
+			default:
+				return
+			}
+		}
+	}
+
+	k := vrt.Param("K", 2)
+	for step := 0; step < k && !dead; step++ {
+		s := 0
+		if ns > 1 {
+			s = vrt.Choose("stream", ns)
+		}
+		st := sts[s]
+		switch vrt.Choose("event", vrt.Param("EVENTS", 5)) {
+		case 0: // the handler of stream s produced a frame
+			if ended[s] || g.nfr[s] >= maxQueuedC34 {
+				vrt.Assume(false) // a handler produces nothing after its END_STREAM frame
+			}
+			if g.nfr[s] > 0 && g.isData[s][g.nfr[s]-1] && g.end[s][g.nfr[s]-1] {
+				vrt.Assume(false)
+			}
+			wm := g.produceC34(s, st)
+			if reset[s] {
+				// the stream is gone; the frame of the racing handler must be dropped, not sent
+				g.nfr[s]--
+			}
+			sc.writeFrame(wm)
+		case 1: // WINDOW_UPDATE
+			inc := vrt.U32("increment")
+			vrt.Assume(inc >= 1 && inc <= 1<<31-1)
+			f := &WindowUpdateFrame{FrameHeader: FrameHeader{valid: true, Type: FrameWindowUpdate, Length: 4}, Increment: inc}
+			onConn := vrt.Choose("level", 2) == 1
+			if !onConn {
+				f.StreamID = st.id
+			}
+			err := sc.processWindowUpdate(f)
+			if onConn {
+				g.connWin += int64(inc)
+				if g.connWin > 1<<31-1 {
+					vrt.Assert(err != nil, "C34/window-overflow-rejected") // 6.9.1
+				}
+				if err != nil {
+					dead = true // GOAWAY
+				}
+			} else if !reset[s] && !ended[s] {
+				g.win[s] += int64(inc)
+				if g.win[s] > 1<<31-1 {
+					vrt.Assert(err != nil, "C34/window-overflow-rejected")
+				}
+				if err != nil { // what processFrameFromReader does with it (see VerifC34_flowAdd for refusals of legal updates)
+					if se, ok := err.(StreamError); ok {
+						sc.resetStream(se)
+						reset[s] = true
+					} else {
+						dead = true
+					}
+				}
+			}
+		case 2: // SETTINGS_INITIAL_WINDOW_SIZE
+			val := vrt.U32("newInitialWindow")
+			vrt.Assume(val <= 1<<31-1)
+			old := int64(sc.initialWindowSize)
+			err := sc.processSettings(settingsFrameC34(SettingInitialWindowSize, val))
+			for i := 0; i < ns; i++ {
+				if !reset[i] && !ended[i] {
+					g.win[i] += int64(val) - old
+					if g.win[i] > 1<<31-1 {
+						vrt.Assert(err != nil, "C34/window-overflow-rejected") // 6.9.2
+					}
+				}
+			}
+			if err != nil {
+				dead = true // connection error
+			}
+		case 3: // RST_STREAM from the client
+			f := &RSTStreamFrame{FrameHeader: FrameHeader{valid: true, Type: FrameRSTStream, Length: 4, StreamID: st.id}, ErrCode: ErrCodeCancel}
+			sc.processResetStream(f)
+			reset[s] = true
+		case 4: // SETTINGS_MAX_FRAME_SIZE (any value; invalid ones must be refused)
+			val := vrt.U32("newMaxFrameSize")
+			err := sc.processSettings(settingsFrameC34(SettingMaxFrameSize, val))
+			if err == nil {
+				maxFrame = int64(val)
+				vrt.Assert(val >= 1<<14 && val <= 1<<24-1, "C34/max-frame-size-setting-in-range")
+			} else {
+				dead = true
+			}
+		}
+		if !dead {
+			pump()
+		}
+	}
+	vrt.Cover("C34/history-done")
+}
+
+// VerifC34_flowAdd: the window arithmetic behind WINDOW_UPDATE and SETTINGS_INITIAL_WINDOW_SIZE. A window
+// is a number in [-(2^31-1), 2^31-1] (RFC 7540 6.9.2 makes negative windows legal); adding n must fail
+// exactly when the result would exceed 2^31-1 (6.9.1) and otherwise produce the mathematical sum.
+func VerifC34_flowAdd() {
+	var f flow
+	f.n = vrt.I32("window")
+	n := vrt.I32("delta")
+	vrt.Assume(f.n >= -(1<<31 - 1) && n >= -(1<<31 - 1))
+	sum := int64(f.n) + int64(n)
+	vrt.Assume(sum >= -(1<<31 - 1)) // Inv of VerifC34_conn: a window never drops below -(2^31-1)
+	vrt.Known("C34-flow-add-refuses-increase-of-negative-window", f.n < 0)
+	ok := f.add(n)
+	if sum > 1<<31-1 {
+		vrt.Assert(!ok, "C34/window-overflow-rejected")
+	} else {
+		vrt.Assert(ok, "C34/legal-window-change-accepted")
+		vrt.Assert(int64(f.n) == sum, "C34/window-arithmetic-exact")
+	}
+}
